@@ -12,7 +12,8 @@
                                          that the type of the existing file is detected, unless "keep")  -> "open <0|1> <fn>"
            close <fn>                    cg_close(fn) with the raw number        -> "close <0|1>"
            get <fn>                      cg_get_cgio(fn) + name of the base node   -> "get <0|1> <base name or ->"
-     io:   world <kinds> <links>         as harness/c17_io.c; the node /D of file i has the label F<i>_t
+     io:   world <kinds> <links>         as harness/c17_io.c (kinds ok|okL|okB|okE = NATIVE / LEGACY / IEEE_BIG / IEEE_LITTLE layout,
+                                         missing, garbage, badhdr); the node /D of file i has the label F<i>_t
            open <n> <r|m>                -> "open ok <c>" | "open err 0"
            close <c>                     -> "close <status>"
            use <c>                       cgio_get_root_id + cgio_get_node_id(/D) + cgio_get_label -> "use <0|1> <label or ->"
@@ -26,6 +27,7 @@
 #include <sys/stat.h>
 #include "cgnslib.h"
 #include "cgns_io.c"
+#include "adf/ADF.h"
 #include "adf/ADF_internals.h"
 
 extern int n_open, n_cgns_files, cgns_file_size, file_number_offset;
@@ -85,20 +87,24 @@ static void make_world(int unused, const char *kinds_in, const char *links)
         } else if (!strcmp(k[i], "dir")) mkdir(p, 0777);
     }
     for (i = 0; i < nk; i++) {
-        char p[700], ln[4096], lab[40], *s2, *e; int c; double root, did, lid;
-        if (strcmp(k[i], "ok")) continue;
-        ipath(i, p); sprintf(lab, "F%d_t", i);
-        if (cgio_open_file(p, 'w', CGIO_FILE_ADF, &c)) _exit(3);
-        cgio_get_root_id(c, &root);
-        if (cgio_create_node(c, root, "D", &did) || cgio_set_label(c, did, lab)) _exit(3);
+        char p[700], ln[4096], lab[40], *s2, *e; double root, did, lid; int err;
+        const char *fmt = !strcmp(k[i], "okL") ? "LEGACY" : !strcmp(k[i], "okB") ? "IEEE_BIG" : !strcmp(k[i], "okE") ? "IEEE_LITTLE" : "NATIVE";
+        if (strncmp(k[i], "ok", 2)) continue;
+        ipath(i, p); sprintf(lab, "F%d_t", i); remove(p);
+        /* the ADF core interface takes the layout: NATIVE, LEGACY ("Version A": ASCII-hex pointers), IEEE_BIG, IEEE_LITTLE */
+        ADF_Database_Open(p, "NEW", fmt, &root, &err);
+        if (err != -1) _exit(3);
+        ADF_Create(root, "D", &did, &err); ADF_Set_Label(did, lab, &err);
         strncpy(ln, links, sizeof ln - 1); ln[sizeof ln - 1] = 0;
         for (e = strtok_r(ln, ",", &s2); e; e = strtok_r(NULL, ",", &s2)) {
             int a, b; char nm[40], fn[40];
             if (sscanf(e, "%d>%d", &a, &b) != 2 || a != i) continue;
             sprintf(nm, "L%d", b); sprintf(fn, "F%d.cgio", b);
-            if (cgio_create_link(c, did, nm, fn, "/D", &lid)) _exit(3);
+            ADF_Link(did, nm, fn, "/D", &lid, &err);
+            if (err != -1) _exit(3);
         }
-        if (cgio_close_file(c)) _exit(3);
+        ADF_Database_Close(root, &err);
+        if (err != -1) _exit(3);
     }
 }
 
@@ -132,6 +138,11 @@ static void dump_io(void)
         printf("%d:%d:", ADF_file[i].in_use, ADF_file[i].in_use ? name_id(ADF_file[i].file_name) : -1);
         if (ADF_file[i].in_use == 0 || ADF_file[i].nlinks == 0) printf("-");
         else for (j = 0; j < ADF_file[i].nlinks; j++) printf("%s%u", j ? "," : "", ADF_file[i].links[j]);
+        /* the per-file attributes of an entry in use: old_version, format, os_size, link_separator, version update pending */
+        if (ADF_file[i].in_use) printf(":%d%c%c%c%d", ADF_file[i].old_version, ADF_file[i].format ? ADF_file[i].format : '0',
+                                       ADF_file[i].os_size ? ADF_file[i].os_size : '0',
+                                       ADF_file[i].link_separator == ' ' ? '_' : ADF_file[i].link_separator, ADF_file[i].version_update[0] != 0);
+        else printf(":-");
     }
     if (maximum_files == 0) printf("-");
     printf("\n"); fflush(stdout);
